@@ -44,6 +44,12 @@ def main():
         res["import_exc"] = repr(e)[:300]
         os.write(out_fd, (json.dumps(res) + "\n").encode())
         return 0
+    if job.get("force_optimize"):
+        # harness probe only (never part of an oracle): bind whatever table file is on disk without the signature
+        # check, to measure how many workload items would betray a wrongly accepted table
+        import simple_ddl_parser.parser as P
+        _real = P.yacc
+        P.yacc = seams._ModProxy(_real, {"yacc": lambda *a, **kw: _real.yacc(*a, **dict(kw, optimize=True))})
     if job.get("write_fault"):
         seams.install_table_seam()
         plan = seams.IoPlan([{"site": "table_write", "kind": "EACCES", "sticky": True}])
